@@ -238,7 +238,7 @@ MUTANTS += [
     {"name": "c04-sockets-not-unlinked", "prop": "C04", "checks": ["C04"],
      "edits": [(AR, "        sock.close_sockets(self.LISTENERS, unlink)", "        sock.close_sockets(self.LISTENERS, False)")]},
     {"name": "c04-gthread-does-not-wait-for-handlers", "prop": "C04", "checks": ["C04"],
-     "edits": [(GT, "        futures.wait(self.futures, timeout=self.cfg.graceful_timeout)", "        os._exit(0)")]},
+     "edits": [(GT, "        deadline = time.time() + self.cfg.graceful_timeout\n        while self.futures:", "        os._exit(0)\n        deadline = time.time() + self.cfg.graceful_timeout\n        while self.futures:")]},
     {"name": "c04-no-kill-after-graceful-timeout", "prop": "C04", "checks": ["C04"],
      "edits": [(AR, "            time.sleep(0.1)\n\n        self.kill_workers(signal.SIGKILL)", "            time.sleep(0.1)\n")]},
     {"name": "c04-graceful-wait-doubled", "prop": "C04", "checks": ["C04"],
@@ -288,16 +288,17 @@ MUTANTS += [
     # ---- C13 -------------------------------------------------------------------------------
     {"name": "c13-nr-conns-not-decremented-on-close-branch", "prop": "C13", "checks": ["C13"],
      "edits": [(GT, "            else:\n                self.nr_conns -= 1\n                conn.close()\n        except Exception:", "            else:\n                conn.close()\n        except Exception:")]},
-    {"name": "c13-keep-remove-race-guard-removed", "prop": "C13", "checks": ["C13"],
-     "edits": [(GT, "                try:\n                    self._keep.remove(conn)\n                except ValueError:\n                    return", "                try:\n                    self._keep.remove(conn)\n                except ValueError:\n                    pass")]},
+    # (c13-keep-remove-race-guard-removed - `except ValueError: return` -> `pass` in on_client_socket_readable - is an equivalent
+    #  mutant: the callback is registered only after `_keep.append(conn)` and both it and murder_keepalived() run in the loop
+    #  thread, so the ValueError branch cannot be reached; dropped from the list)
     {"name": "c13-murder-keepalived-closes-early", "prop": "C13", "checks": ["C13"],
      "edits": [(GT, "            delta = conn.timeout - now\n            if delta > 0:", "            delta = conn.timeout - now\n            if delta > self.cfg.keepalive / 2.0:")]},
     {"name": "c13-no-unregister-before-dispatch", "prop": "C13", "checks": ["C13"],
-     "edits": [(GT, "        with self._lock:\n            self.poller.unregister(client)\n            if conn.initialized:", "        with self._lock:\n            if conn.initialized:")]},
+     "edits": [(GT, "            # unregister the client from the poller\n            self.poller.unregister(client)\n", "")]},
     {"name": "c13-keepalive-never-reaped", "prop": "C13", "checks": ["C13"],
      "edits": [(GT, "            if not self.is_parent_alive():\n                break\n\n            # handle keepalive timeouts\n            self.murder_keepalived()", "            if not self.is_parent_alive():\n                break")]},
     {"name": "c13-keepalive-conn-not-reregistered", "prop": "C13", "checks": ["C13"],
-     "edits": [(GT, "                    self._keep.append(conn)\n                    self.poller.register(conn.sock, selectors.EVENT_READ,\n                                         partial(self.on_client_socket_readable, conn))", "                    self._keep.append(conn)")]},
+     "edits": [(GT, "                    # add the socket to the event loop\n                    self.poller.register(conn.sock, selectors.EVENT_READ,\n                                         partial(self.on_client_socket_readable, conn))", "                    pass")]},
     {"name": "c13-capacity-recheck-removed", "prop": "C13", "checks": ["C13"],
      "edits": [(GT, "            if self.nr_conns >= self.worker_connections:\n                return\n            sock, client = listener.accept()", "            sock, client = listener.accept()")]},
     {"name": "c13-murder-closes-without-unregister-and-count", "prop": "C13", "checks": ["C13"],
